@@ -27,9 +27,11 @@ type FramerScenario struct {
 	// Pending: a request of this kind ("sub1".."sub3" = Subscribe with 1..3 filters, "unsub", "pub1", "pub2", "ping") is
 	// outstanding -- written, not answered by the broker model -- when Acks are sent: packets built around the request's
 	// own identifier (first byte T, then a remaining length, then identifier + D, then X)
-	Pending string           `json:"pending,omitempty"`
-	Acks    []FramerAck      `json:"acks,omitempty"`
-	Batch   []FramerScenario `json:"batch,omitempty"`
+	// NoHandler: the application never called Handle (a publisher-only client)
+	NoHandler bool             `json:"noHandler,omitempty"`
+	Pending   string           `json:"pending,omitempty"`
+	Acks      []FramerAck      `json:"acks,omitempty"`
+	Batch     []FramerScenario `json:"batch,omitempty"`
 }
 
 // FramerAck is a packet answering (or pretending to answer) the outstanding request.
@@ -146,10 +148,12 @@ func runFramer(sc *FramerScenario) *FramerResult {
 	for _, f := range []string{"#", "+", "+/+", "a/#", "a/+/c", "$SYS/#"} {
 		_ = mux.HandleFunc(f, func(*mqtt.Message) {})
 	}
-	cli.Handle(mqtt.HandlerFunc(func(m *mqtt.Message) {
-		res.HO = append(res.HO, FramerMsg{T: ints([]byte(m.Topic)), P: ints(m.Payload), Q: int(m.QoS), R: m.Retain, D: m.Dup, ID: int(m.ID)})
-		mux.Serve(m)
-	}))
+	if !sc.NoHandler {
+		cli.Handle(mqtt.HandlerFunc(func(m *mqtt.Message) {
+			res.HO = append(res.HO, FramerMsg{T: ints([]byte(m.Topic)), P: ints(m.Payload), Q: int(m.QoS), R: m.Retain, D: m.Dup, ID: int(m.ID)})
+			mux.Serve(m)
+		}))
+	}
 	stream := bytesOf(sc.Bytes)
 	if sc.At != "" {
 		// the broker's first bytes are scripted: CONNECT is not answered by the broker model
